@@ -364,6 +364,7 @@ fn main() {
                 println!("{} {:016x}", i, d);
             }
         }
+        "debug-delta" => debug_delta_linearity(),
         "replay" => {
             let path = args.get(2).cloned().unwrap_or_default();
             std::process::exit(driver::replay(&path));
@@ -372,5 +373,12 @@ fn main() {
             eprintln!("unknown command {}", args[1]);
             std::process::exit(2);
         }
+    }
+}
+
+#[allow(dead_code)]
+pub fn debug_delta_linearity() {
+    for pad in [1u64, 2, 3, 4, 5, 10, 100, 254, 255, 256, 257, 1000, 5000] {
+        println!("pad {} -> {:?}", pad, mem::debug_delta(3000, 7, pad));
     }
 }
